@@ -4,6 +4,7 @@ package main
 
 import (
 	"fmt"
+	"go/ast"
 	"time"
 
 	"elaverif/extract/ex"
@@ -23,5 +24,29 @@ func main() {
 	emit("testnet", config.GetDefaultParams().TestNet())
 	emit("regnet", config.GetDefaultParams().RegNet())
 	emit("instant", config.GetDefaultParams().InstantBlock())
+
+	// How blockchain.New derives the retarget window from the parameters (the
+	// harness hook VerifRetarget and the model's PowParams.cfg repeat this
+	// derivation; the tie lemma fails if New starts computing it differently).
+	f := ex.Parse("blockchain/blockchain.go")
+	fd := f.MustFunc("New")
+	want := map[string]bool{"minRetargetTimespan": true, "maxRetargetTimespan": true, "blocksPerRetarget": true}
+	var facts []string
+	ast.Inspect(fd, func(n ast.Node) bool {
+		switch x := n.(type) {
+		case *ast.KeyValueExpr:
+			if id, ok := x.Key.(*ast.Ident); ok && want[id.Name] {
+				facts = append(facts, id.Name+" := "+f.Src(x.Value))
+			}
+		case *ast.AssignStmt:
+			if len(x.Lhs) == 1 && len(x.Rhs) == 1 {
+				if id, ok := x.Lhs[0].(*ast.Ident); ok && (id.Name == "targetTimespan" || id.Name == "targetTimePerBlock" || id.Name == "adjustmentFactor") {
+					facts = append(facts, id.Name+" := "+f.Src(x.Rhs[0]))
+				}
+			}
+		}
+		return true
+	})
+	ex.DefStrList("newDerivation", facts)
 	ex.Footer("C09")
 }
